@@ -168,11 +168,13 @@ def mdef (swap : Bool) : MdefStage → List Ev
 
 def mdefKeep (swap : Bool) : List Nat := [0, 1, 2, 3, 4] ++ if swap then [5] else []
 
-/-! ## `ptm_mgau_init_s3file` (ptm_mgau.c:754-860) with `read_sendump`/`read_mixw`; 0 = `s`, 1 = the
+/-! ## `ptm_mgau_init_s3file` (ptm_mgau.c:772-885) with `read_sendump`/`read_mixw`; 0 = `s`, 1 = the
 codebooks `g` (as one object: `gauden_init_s3file`/`gauden_free`, whose own ledger is `gauden`),
-2 = `*out_mixw`, 3 = `pdf` (read_mixw), 4 = `s->sen2cb`, 5 = `s->hist`, 6,7 = `hist[i].topn`,
-8,9 = `hist[i].mgau_active`.  The log tables (`logmath_init`) are reference-counted objects of
-another module and not part of this ledger. -/
+2 = `*out_mixw`, 3 = `pdf` (read_mixw), 4 = `s->sen2cb`, 5 = `s->hist`, 10 = `s->replay` (the second
+two-slot top-N history, D63), 6,7 / 11,12 = `hist[i].topn` of the two histories, 8,9 / 13,14 =
+`hist[i].mgau_active` (allocated by `ptm_mgau_reset_hist`, once for `s->hist`, once for
+`s->replay`).  The log tables (`logmath_init`) are reference-counted objects of another module
+and not part of this ledger. -/
 
 inductive PtmStage where
   | gauden    -- the codebooks cannot be read (`g` is allocated and released inside gauden_init_s3file)
@@ -184,11 +186,13 @@ inductive PtmStage where
   | okSd | okMx
 deriving Repr, DecidableEq
 
-/-- `ptm_mgau_free`: mixw, sen2cb, the histories, hist, the codebooks, `s` -/
+/-- `ptm_mgau_free`: mixw, sen2cb, slot by slot the two histories, hist, replay, the codebooks, `s` -/
 def ptmUnwind (live : List Nat) : List Ev :=
-  ([2, 4, 6, 8, 7, 9, 5, 1, 0].filter live.contains).map free
+  ([2, 4, 6, 8, 11, 13, 7, 9, 12, 14, 5, 10, 1, 0].filter live.contains).map free
 
-def ptmTail : List Ev := [alloc 4, alloc 5, alloc 6, alloc 8, alloc 7, alloc 9]
+/-- sen2cb, the two history arrays, then `ptm_mgau_reset_hist` for `hist` and for `replay` -/
+def ptmTail : List Ev :=
+  [alloc 4, alloc 5, alloc 10, alloc 6, alloc 8, alloc 7, alloc 9, alloc 11, alloc 13, alloc 12, alloc 14]
 
 def ptm : PtmStage → List Ev
   | .gauden => [alloc 0, alloc 1, free 1, free 0]
@@ -200,7 +204,7 @@ def ptm : PtmStage → List Ev
   | .okSd => [alloc 0, alloc 1, alloc 2] ++ ptmTail
   | .okMx => [alloc 0, alloc 1, alloc 2, alloc 3, free 3] ++ ptmTail
 
-def ptmKeep : List Nat := [0, 1, 2, 4, 5, 6, 7, 8, 9]
+def ptmKeep : List Nat := [0, 1, 2, 4, 5, 6, 7, 8, 9, 10, 11, 12, 13, 14]
 
 /-! ## names of the objects: `<file>:<left-hand side of the allocating assignment>` — what the
 allocation traces of the harness are abstracted to (tools/props/c17.py) -/
@@ -233,8 +237,11 @@ def ptmName : Nat → String
   | 3 => "ptm_mgau.c:pdf"
   | 4 => "ptm_mgau.c:s->sen2cb"
   | 5 => "ptm_mgau.c:s->hist"
-  | 6 => "ptm_mgau.c:s->hist[i].topn"
-  | 7 => "ptm_mgau.c:s->hist[i].topn"
-  | _ => "ptm_mgau.c:s->hist[i].mgau_active"
+  | 10 => "ptm_mgau.c:s->replay"
+  | 6 => "ptm_mgau.c:hist[i].topn"
+  | 7 => "ptm_mgau.c:hist[i].topn"
+  | 11 => "ptm_mgau.c:hist[i].topn"
+  | 12 => "ptm_mgau.c:hist[i].topn"
+  | _ => "ptm_mgau.c:hist[i].mgau_active"
 
 end SSVerif.S3file.Ledger
